@@ -128,7 +128,7 @@ func (fc *FnCtx) pointClausesV(st *State, kind, anchor string, pos token.Pos, va
 		if vars != nil {
 			env.vars = copyVars(vars)
 			if kind == "at_exit" {
-				env.localFn = nil
+				env.at = nil
 			}
 		}
 		if fc.curFn.Pkg != nil {
@@ -164,6 +164,84 @@ func (fc *FnCtx) pointClausesV(st *State, kind, anchor string, pos token.Pos, va
 				v := fc.evalSpec(env, ex)
 				k := fc.ghostKey(name)
 				st.heap[k] = fc.sc.Define(fc.hv[k].name, fc.hv[k].sort, v.T)
+			}()
+		case "apply":
+			// apply lemma(args): assume the instance of a lemma for the given terms. Binders named like
+			// a ghost variable are filled with that ghost variable; the others take the arguments in order.
+			i := strings.Index(rest, "(")
+			if i < 0 || !strings.HasSuffix(rest, ")") {
+				fc.errorf("%s: apply name(args)", c.Pos)
+				continue
+			}
+			lname := strings.TrimSpace(rest[:i])
+			var lm *Lemma
+			for _, l := range fc.eng.lemmas {
+				if l.Name == lname {
+					lm = l
+				}
+			}
+			if lm == nil || lm.Body == "" || len(lm.BinderNames) != len(lm.Binders) {
+				fc.errorf("%s: cannot apply lemma %s", c.Pos, lname)
+				continue
+			}
+			argTxt := splitTop(rest[i+1:len(rest)-1], ',')
+			func() {
+				defer func() {
+					if r := recover(); r != nil {
+						if se, ok := r.(specError); ok {
+							fc.errorf("spec error at %s: %s", c.Pos, se.msg)
+							return
+						}
+						panic(r)
+					}
+				}()
+				inst := lm.Body
+				ai := 0
+				for bi, b := range lm.Binders {
+					var term string
+					if _, isGhost := fc.eng.ghosts[lm.BinderNames[bi]]; isGhost {
+						term = fc.heapGet(st, fc.ghostKey(lm.BinderNames[bi]))
+					} else {
+						if ai >= len(argTxt) {
+							specFail("apply %s: too few arguments", lname)
+						}
+						ex, err := parseSpecExpr(argTxt[ai])
+						if err != nil {
+							specFail("%v", err)
+						}
+						ai++
+						term = fc.evalSpec(env, ex).T
+					}
+					term = fc.sc.Define("ap", b[1], term)
+					inst = replaceSym(inst, b[0], term)
+				}
+				fc.assume(st, inst)
+				if fc.usedLemmas == nil {
+					fc.usedLemmas = map[string]bool{}
+				}
+				fc.usedLemmas[lname] = true
+			}()
+		case "mention":
+			// plant a ground term (through an uninterpreted marker) so that lemmas triggered on it fire
+			ex, err := parseSpecExpr(rest)
+			if err != nil {
+				fc.errorf("%s: %v", c.Pos, err)
+				continue
+			}
+			func() {
+				defer func() {
+					if r := recover(); r != nil {
+						if se, ok := r.(specError); ok {
+							fc.errorf("spec error at %s: %s", c.Pos, se.msg)
+							return
+						}
+						panic(r)
+					}
+				}()
+				v := fc.evalSpec(env, ex)
+				m := "mention_" + sanitize(v.Sort)
+				fc.sc.Header("mention:"+m, fmt.Sprintf("(declare-fun %s (%s) Bool)", m, v.Sort))
+				fc.assume(st, app(m, v.T))
 			}()
 		case "assert", "assume":
 			ex, err := parseSpecExpr(rest)
@@ -576,6 +654,30 @@ func (fc *FnCtx) havocTarget(st *State, env *specEnv, a *AssignTarget) {
 		fc.assume(st, app("<=", "0", nl))
 		st.heap[l] = fc.sc.Define(fc.hv[l].name, fc.hv[l].sort, app("store", fc.heapGet(st, l), mv.T, nl))
 	}
+}
+
+// replaceSym replaces whole-symbol occurrences of name in an SMT term.
+func replaceSym(t, name, with string) string {
+	var b strings.Builder
+	for i := 0; i < len(t); {
+		j := strings.Index(t[i:], name)
+		if j < 0 {
+			b.WriteString(t[i:])
+			break
+		}
+		j += i
+		e := j + len(name)
+		okL := j == 0 || strings.ContainsRune(" ()", rune(t[j-1]))
+		okR := e >= len(t) || strings.ContainsRune(" ()", rune(t[e]))
+		b.WriteString(t[i:j])
+		if okL && okR {
+			b.WriteString(with)
+		} else {
+			b.WriteString(name)
+		}
+		i = e
+	}
+	return b.String()
 }
 
 func exceptMatch(pats, key string) bool {
